@@ -146,3 +146,15 @@ fn c01_p32_div_modular() {
         }
     }
 }
+
+// C16 for the operations that inline the divider (rem = a - trunc(a / b) * b, div_euclid, rem_euclid): totality proved modularly,
+// with crate::lldiv replaced by its contract -- tried: does NOT close in 30 min either (three functions, each dividing twice), kept as tier deep
+// @h name=c16_p32_rem_modular props=C16 fn=P32E2::rem,P32E2::div_euclid,P32E2::rem_euclid tier=deep t=1800 kind=plain unwind=70 variant=B mode=P-modular
+#[kani::proof]
+#[kani::unwind(70)]
+#[kani::stub(crate::lldiv, lldiv_havoc)]
+fn c16_p32_rem_modular() {
+    let (x, y) = (P32E2::from_bits(kani::any()), P32E2::from_bits(kani::any()));
+    let _ = (x.rem(y), x.div_euclid(y), x.rem_euclid(y));
+    kani::cover!(true);
+}
